@@ -12,8 +12,9 @@ PID = "C05"
 LEAN_MODS = ["SwcVerif.Props.C05", "SwcVerif.Props.C05Gen", "SwcVerif.Props.C05Wrap"]
 # Gen/AlgoSort.lean is regenerated from normalizer.py::sort_nodes_impl on every run; Gen/AlgoSortWrap.lean from tree_utils.py::sort_tree, on top of
 # `_sort_tree` in Gen/AlgoRedirect.lean (which imports Gen/AlgoNode.lean) (harness/algo_specs/72_helpers.py, T41)
-TRANSLATE_ALGO = ["AlgoSort", "AlgoNode", "AlgoRedirect", "AlgoSortWrap"]
-DRIVER_FILES = ["SwcVerif/Model/AlgoRunSort.lean", "SwcVerif/Model/AlgoRunSortWrap.lean", "SwcVerif/Gen/AlgoSortWrap.lean"]
+# the table forms `sort_nodes_` (Gen/AlgoRepair.lean) / `sort_nodes` (Gen/AlgoCtor.lean) with the modules they import
+TRANSLATE_ALGO = ["AlgoSort", "AlgoNode", "AlgoRedirect", "AlgoSortWrap", "AlgoDsu", "AlgoCheckers", "AlgoNormalizer", "AlgoRepair", "AlgoCtor"]
+DRIVER_FILES = ["SwcVerif/Model/AlgoRunSort.lean", "SwcVerif/Model/AlgoRunSortWrap.lean", "SwcVerif/Gen/AlgoSortWrap.lean", "SwcVerif/Model/AlgoRunCtor.lean"]
 THEOREMS = [
     "C05.machine_eq_pre", "C05.sort_ok", "C05.sort_perm", "C05.sort_sorted", "C05.sort_parent", "C05.sort_root",
     "C05.sort_indices", "C05.edge_is_row", "C05.sort_columns", "C05.sort_again", "C05.isSorted_iff",
@@ -21,6 +22,8 @@ THEOREMS = [
     "RefineSort.sort_refines", "C05.generated_sort_ok", "C05.generated_eq_model",
     # the wrapper the user calls, tree_utils.sort_tree = the generated _sort_tree on a copy (Props/C05Wrap.lean)
     "C05.generated_sort_tree_eq", "C05.generated_sort_tree_ok",
+    # the table forms: sort_nodes_ (in place, also the step of read_swc(sort_nodes=True)) and sort_nodes (copying, with its frame statement)
+    "C05.sortNodes_refines", "C05.generated_sort_nodes_inplace_ok", "C05.generated_sort_nodes_ok",
 ]
 TRUSTED = ["hand-written model Model/Sort.lean of sort_nodes_impl (tied by the c05.sort correspondence suite: new parents, row indices and id map compared exactly)"]
 ASSUMPTIONS = [
@@ -870,6 +873,15 @@ class SortSuite(Suite):
         if isinstance(tr, dict) and "id" in tr and len(case.get("types") or []) == len(case["ids"]):
             # the wrapper GENERATED from tree_utils.sort_tree on the tree object's columns against the real sort_tree(tree)
             wrap = [(f"gsorttree {a} types={gen.ints(case['types'])}", f"{gen.ints(tr['id'])} / {gen.ints(tr['pid'])} / {gen.ints(tr['types'])}")]
+        d = res.get("df")
+        if isinstance(d, dict) and len(case.get("types") or []) == len(case["ids"]) == len(case.get("key") or []):
+            # the copying table form GENERATED from normalizer.sort_nodes (one further integer column: the key) against the real sort_nodes(df):
+            # result frame | the argument after the call | a bystander frame | references and heap size
+            fr = lambda i, p, t, k: f"{gen.ints(i)} / {gen.ints(p)} / {gen.ints(t)} / {gen.ints(k)}"
+            if res.get("df_input_unchanged"):
+                wrap.append((f"gcopying op=sort {a} types={gen.ints(case['types'])} rs={gen.ints(case['key'])}",
+                             f"{fr(d['id'], d['pid'], d['types'], d['key'])} | {fr(case['ids'], case['pids'], case['types'], case['key'])} | "
+                             "7,8 / -1,7 / 1,2 / 4,4 | 1 2 3"))
         return wrap + [("sort " + a, f"{gen.ints(i['new_pids'])} / {gen.ints(i['indices'])} / {gen.ints(idmap)}"),
                 # the definition generated from sort_nodes_impl on this run (translator cross-check)
                 ("gsort " + a, f"{gen.ints(i['new_pids'])} / {gen.ints(i['indices'])}"),
